@@ -478,3 +478,377 @@ Proof.
       * apply (OrdL_Forall _ (rev e1) o4); [now apply Forall_rev|exact Ho4].
       * now apply IH.
 Qed.
+
+(* ------------------------------------------------------------------------------------------------ *)
+(* reverse, proper *)
+Lemma PureE_reverse v t : PureE v (reverse t) <-> PureE v t.
+Proof. unfold PureE. rewrite ordering_reverse. split; intros H; [rewrite <- (rev_involutive (ordering t))|]; now apply Forall_rev. Qed.
+Lemma PureF_reverse v t : PureF v (reverse t) <-> PureF v t.
+Proof. unfold PureF. rewrite ordering_reverse. split; intros H; [rewrite <- (rev_involutive (ordering t))|]; now apply Forall_rev. Qed.
+
+Lemma Forall_rev_map_reverse (Q : pq -> Prop) l :
+  (forall t, Q t -> Q (reverse t)) -> Forall Q l -> Forall Q (rev (map reverse l)).
+Proof. intros HQ H. apply Forall_rev. apply Forall_map. eapply Forall_impl; [|exact H]. exact HQ. Qed.
+
+Lemma proper_reverse t : proper (reverse t) = proper t.
+Proof.
+  induction t as [s|k cs IH] using pq_ind'; [reflexivity|]. simpl reverse. rewrite !proper_node.
+  rewrite rev_length, map_length. f_equal.
+  destruct (forallb proper cs) eqn:E.
+  - apply forallb_forall. intros x Hx. apply in_rev, in_map_iff in Hx. destruct Hx as (c & <- & Hc).
+    rewrite Forall_forall in IH. rewrite IH by exact Hc. rewrite forallb_forall in E. now apply E.
+  - destruct (forallb proper (rev (map reverse cs))) eqn:E2; [|reflexivity].
+    rewrite forallb_forall in E2. assert (forallb proper cs = true); [|congruence].
+    apply forallb_forall. intros c Hc. rewrite Forall_forall in IH. rewrite <- IH by exact Hc.
+    apply E2. apply in_rev. rewrite rev_involutive. now apply in_map.
+Qed.
+
+Lemma Al_reverse v t : Al false v t -> Al true v (reverse t).
+Proof.
+  induction 1 as [es c es2 HE HF|es c es2 HE HA IH|es fs HE HF|es x HE HA IH]; simpl reverse.
+  - rewrite map_app, rev_app_distr. simpl. rewrite <- app_assoc. simpl. apply Al_PF.
+    + apply Forall_app in HE. destruct HE as [H1 H2]. apply Forall_app. split;
+        apply Forall_rev_map_reverse; auto; intros t; apply PureE_reverse.
+    + now apply PureF_reverse.
+  - rewrite map_app, rev_app_distr. simpl. rewrite <- app_assoc. simpl. apply Al_PX; [|exact IH].
+    apply Forall_app in HE. destruct HE as [H1 H2]. apply Forall_app. split;
+      apply Forall_rev_map_reverse; auto; intros t; apply PureE_reverse.
+  - rewrite map_app, rev_app_distr. apply (Al_QF true v (rev (map reverse es)) (rev (map reverse fs))).
+    + apply Forall_rev_map_reverse; auto. intros t. apply PureE_reverse.
+    + apply Forall_rev_map_reverse; auto. intros t. apply PureF_reverse.
+  - rewrite map_app, rev_app_distr. simpl. apply (Al_QX true v (rev (map reverse es)) (reverse x)); [|exact IH].
+    apply Forall_rev_map_reverse; auto. intros t. apply PureE_reverse.
+Qed.
+
+(* ------------------------------------------------------------------------------------------------ *)
+(* an aligned proper node that contains v and is not classified as partial has v in all its leaves *)
+Lemma exists_E_child v (k : kind) cs e : In e cs -> PureE v e -> existsb (fun cc => negb (contains v cc)) cs = true.
+Proof. intros Hin HE. apply existsb_exists. exists e. split; [exact Hin|]. apply negb_true_iff. now apply contains_false_iff. Qed.
+
+Lemma Al_honest la v c :
+  proper c = true -> Al la v c -> contains v c = true -> is_partial_child v c = false -> PureF v c.
+Proof.
+  intros Hp HA Hc Hn. destruct HA as [es c0 es2 HE HF|es c0 es2 HE HA|es fs HE HF|es x HE HA];
+    unfold is_partial_child in Hn; rewrite Hc in Hn; simpl in Hn; apply proper_node_iff in Hp; destruct Hp as [Hlen Hp].
+  - exfalso. rewrite app_length in Hlen. simpl in Hlen.
+    destruct es as [|e es]; [destruct es2 as [|e es2]; [simpl in Hlen; lia|]|].
+    + inversion HE; subst. rewrite (exists_E_child v KP _ e) in Hn; [discriminate|simpl; auto|assumption].
+    + inversion HE; subst. rewrite (exists_E_child v KP _ e) in Hn; [discriminate|simpl; auto|assumption].
+  - exfalso. rewrite app_length in Hlen. simpl in Hlen.
+    destruct es as [|e es]; [destruct es2 as [|e es2]; [simpl in Hlen; lia|]|].
+    + inversion HE; subst. rewrite (exists_E_child v KP _ e) in Hn; [discriminate|simpl; auto|assumption].
+    + inversion HE; subst. rewrite (exists_E_child v KP _ e) in Hn; [discriminate|simpl; auto|assumption].
+  - destruct es as [|e es].
+    + apply Pure_node_F. destruct la; [now rewrite app_nil_r|exact HF].
+    + exfalso. inversion HE; subst.
+      rewrite (exists_E_child v KQ _ e) in Hn; [discriminate| |assumption].
+      destruct la; [apply in_or_app; right|]; simpl; auto.
+  - exfalso. destruct es as [|e es].
+    + destruct la; simpl in Hlen; lia.
+    + inversion HE; subst. rewrite (exists_E_child v KQ _ e) in Hn; [discriminate| |assumption].
+      destruct la; simpl; auto.
+Qed.
+
+(* ------------------------------------------------------------------------------------------------ *)
+(* simplify *)
+Lemma simplify_P_eq v r cs : simplify v r (Node KP cs) =
+  let empty := filter (fun c => negb (contains v c)) cs in
+  let full := filter (fun c => contains v c && negb (is_partial_child v c)) cs in
+  let partial := last_some (map (fun c => if is_partial_child v c then Some (simplify v r c) else None) cs) [] in
+  let empty' := match empty with [] => [] | _ => [new_node KP empty] end in
+  let full' := match full with [] => [] | _ => [new_node KP full] end in
+  if r then empty' ++ partial ++ full' else full' ++ partial ++ empty'.
+Proof. reflexivity. Qed.
+
+Lemma simplify_Q_eq v r cs : simplify v r (Node KQ cs) =
+  flat_map (fun c => if is_partial_child v c then simplify v r c else [c]) cs.
+Proof. reflexivity. Qed.
+
+Lemma filter_true {T} (f : T -> bool) l : Forall (fun x => f x = true) l -> filter f l = l.
+Proof. induction 1 as [|x t Hx Ht IH]; simpl; [reflexivity|]. now rewrite Hx, IH. Qed.
+Lemma filter_false {T} (f : T -> bool) l : Forall (fun x => f x = false) l -> filter f l = [].
+Proof. induction 1 as [|x t Hx Ht IH]; simpl; [reflexivity|]. now rewrite Hx, IH. Qed.
+
+Lemma last_some_app {T} (l1 l2 : list (option T)) d : last_some (l1 ++ l2) d = last_some l2 (last_some l1 d).
+Proof. revert d. induction l1 as [|[x|] t IH]; intros d; simpl; auto. Qed.
+Lemma last_some_none {T} (l : list (option T)) d : Forall (fun x => x = None) l -> last_some l d = d.
+Proof. induction 1 as [|x t Hx Ht IH]; simpl; [reflexivity|]. subst. exact IH. Qed.
+
+Lemma flat_map_id_if {T} (p : T -> bool) (f : T -> list T) l :
+  Forall (fun x => p x = false) l -> flat_map (fun c => if p c then f c else [c]) l = l.
+Proof. induction 1 as [|x t Hx Ht IH]; simpl; [reflexivity|]. now rewrite Hx, IH. Qed.
+
+Lemma new_node_many k l : 2 <= length l -> new_node k l = Node k l.
+Proof. destruct l as [|x [|y r]]; simpl; intros H; try lia. reflexivity. Qed.
+
+Lemma proper_new_node k l : l <> [] -> Forall (fun c => proper c = true) l -> proper (new_node k l) = true.
+Proof.
+  intros Hl H. destruct l as [|x [|y r]]; [congruence|now inversion H|].
+  rewrite new_node_many by (simpl; lia). apply proper_node_iff. split; [simpl; lia|exact H].
+Qed.
+
+Lemma PureE_new_node v k l : Forall (PureE v) l -> PureE v (new_node k l).
+Proof.
+  intros H. unfold PureE. rewrite ordering_new_node. apply Forall_forall. intros s Hs.
+  apply in_flat_map in Hs. destruct Hs as (c & Hc & Hs). rewrite Forall_forall in H. specialize (H c Hc).
+  unfold PureE in H. rewrite Forall_forall in H. auto.
+Qed.
+Lemma PureF_new_node v k l : Forall (PureF v) l -> PureF v (new_node k l).
+Proof.
+  intros H. unfold PureF. rewrite ordering_new_node. apply Forall_forall. intros s Hs.
+  apply in_flat_map in Hs. destruct Hs as (c & Hc & Hs). rewrite Forall_forall in H. specialize (H c Hc).
+  unfold PureF in H. rewrite Forall_forall in H. auto.
+Qed.
+
+(* the computation of simplify on a P-node whose children other than c do not contain v *)
+Lemma simplify_P_compute v r es c es2 :
+  Forall (PureE v) (es ++ es2) -> es ++ es2 <> [] ->
+  simplify v r (Node KP (es ++ c :: es2)) =
+    if contains v c then
+      let mid := if is_partial_child v c then simplify v r c else [c] in
+      if r then new_node KP (es ++ es2) :: mid else mid ++ [new_node KP (es ++ es2)]
+    else [new_node KP (es ++ c :: es2)].
+Proof.
+  intros HE Hne. rewrite simplify_P_eq. cbv zeta.
+  apply Forall_app in HE. destruct HE as [HE1 HE2].
+  assert (C1 : Forall (fun e => contains v e = false) es) by (eapply Forall_impl; [|exact HE1]; intros e; apply contains_false_iff).
+  assert (C2 : Forall (fun e => contains v e = false) es2) by (eapply Forall_impl; [|exact HE2]; intros e; apply contains_false_iff).
+  assert (P1 : Forall (fun e => is_partial_child v e = false) es) by (eapply Forall_impl; [|exact HE1]; intros e; apply PureE_not_partial).
+  assert (P2 : Forall (fun e => is_partial_child v e = false) es2) by (eapply Forall_impl; [|exact HE2]; intros e; apply PureE_not_partial).
+  assert (Hempty : filter (fun c0 => negb (contains v c0)) (es ++ c :: es2) =
+                   if contains v c then es ++ es2 else es ++ c :: es2).
+  { rewrite filter_app. simpl filter.
+    rewrite (filter_true _ es) by (eapply Forall_impl; [|exact C1]; intros e He; cbv beta; now rewrite He).
+    rewrite (filter_true _ es2) by (eapply Forall_impl; [|exact C2]; intros e He; cbv beta; now rewrite He).
+    destruct (contains v c); reflexivity. }
+  assert (Hfull : filter (fun c0 => contains v c0 && negb (is_partial_child v c0)) (es ++ c :: es2) =
+                  if contains v c && negb (is_partial_child v c) then [c] else []).
+  { rewrite filter_app. simpl filter.
+    rewrite (filter_false _ es) by (eapply Forall_impl; [|exact C1]; intros e He; cbv beta; now rewrite He).
+    rewrite (filter_false _ es2) by (eapply Forall_impl; [|exact C2]; intros e He; cbv beta; now rewrite He).
+    destruct (contains v c && negb (is_partial_child v c)); reflexivity. }
+  assert (Hpart : last_some (map (fun c0 => if is_partial_child v c0 then Some (simplify v r c0) else None)
+                                 (es ++ c :: es2)) [] =
+                  if is_partial_child v c then simplify v r c else []).
+  { rewrite map_app, last_some_app. simpl map.
+    rewrite (last_some_none (map _ es)) by (apply Forall_map; eapply Forall_impl; [|exact P1]; intros e He; cbv beta; now rewrite He).
+    simpl last_some.
+    destruct (is_partial_child v c);
+      apply last_some_none; apply Forall_map; (eapply Forall_impl; [|exact P2]); intros e He; cbv beta; now rewrite He. }
+  rewrite Hempty, Hfull, Hpart. clear Hempty Hfull Hpart.
+  destruct (contains v c) eqn:Ec.
+  - destruct (is_partial_child v c) eqn:Ep; simpl.
+    + destruct (es ++ es2) eqn:E; [congruence|]. destruct r; simpl; now rewrite ?app_nil_r.
+    + destruct (es ++ es2) eqn:E; [congruence|]. destruct r; simpl; now rewrite ?app_nil_r.
+  - assert (Ep : is_partial_child v c = false).
+    { destruct c; [reflexivity|]. unfold is_partial_child. now rewrite Ec. }
+    rewrite Ep. simpl. destruct (es ++ c :: es2) eqn:E; [now destruct es|]. destruct r; simpl; reflexivity.
+Qed.
+
+(* what simplify returns on an aligned tree: blocks without v then blocks with v (right aligned; the other way
+   round when left aligned), the same leaves, and every frontier of the sequence — read forwards or backwards — is a
+   frontier of the tree *)
+Definition Pattern (la : bool) (v : nat) (L : list pq) : Prop :=
+  exists es fs, Forall (PureE v) es /\ Forall (PureF v) fs /\ L = if la then fs ++ es else es ++ fs.
+
+Definition SimpOK (la : bool) (v : nat) (t : pq) (L : list pq) : Prop :=
+  Pattern la v L /\ Forall (fun c => proper c = true) L /\
+  Permutation (ordering t) (flat_map ordering L) /\ Pieces L t.
+
+Lemma Ord_P_box es c es2 o1 o2 :
+  Ord c o2 -> Ord (Node KP (es ++ es2)) o1 ->
+  Ord (Node KP (es ++ c :: es2)) (o1 ++ o2) /\ Ord (Node KP (es ++ c :: es2)) (o2 ++ o1).
+Proof.
+  intros Hc HE.
+  assert (HP : Permutation ([c] ++ (es ++ es2)) (es ++ c :: es2)) by (simpl; apply Permutation_middle).
+  split; apply (Ord_P_perm _ _ _ HP); apply Ord_P_group; apply Ord_P.
+  - exists [Node KP (es ++ es2); c]. split; [apply perm_swap|].
+    apply OrdL_cons. exists o1, o2. repeat split; auto. now apply OrdL_one.
+  - exists [c; Node KP (es ++ es2)]. split; [reflexivity|].
+    apply OrdL_cons. exists o2, o1. repeat split; auto. now apply OrdL_one.
+Qed.
+
+Lemma Pieces_P es c es2 Lc :
+  es ++ es2 <> [] -> Pieces Lc c ->
+  Pieces (new_node KP (es ++ es2) :: Lc) (Node KP (es ++ c :: es2)) /\
+  Pieces (Lc ++ [new_node KP (es ++ es2)]) (Node KP (es ++ c :: es2)).
+Proof.
+  intros Hne [Hf Hb]. split; split; intros o Ho.
+  - apply OrdL_cons in Ho. destruct Ho as (o1 & o2 & -> & H1 & H2). apply Ord_new_node in H1; [|exact Hne].
+    exact (proj1 (Ord_P_box es c es2 o1 o2 (Hf _ H2) H1)).
+  - simpl in Ho. apply OrdL_app in Ho. destruct Ho as (o2 & o1 & -> & H2 & H1). apply OrdL_one in H1.
+    apply Ord_new_node in H1; [|exact Hne]. exact (proj2 (Ord_P_box es c es2 o1 o2 (Hb _ H2) H1)).
+  - apply OrdL_app in Ho. destruct Ho as (o2 & o1 & -> & H2 & H1). apply OrdL_one in H1.
+    apply Ord_new_node in H1; [|exact Hne]. exact (proj2 (Ord_P_box es c es2 o1 o2 (Hf _ H2) H1)).
+  - rewrite rev_app_distr in Ho. simpl in Ho. apply OrdL_cons in Ho. destruct Ho as (o1 & o2 & -> & H1 & H2).
+    apply Ord_new_node in H1; [|exact Hne]. exact (proj1 (Ord_P_box es c es2 o1 o2 (Hb _ H2) H1)).
+Qed.
+
+Lemma ordering_middle es c es2 :
+  Permutation (flat_map ordering (es ++ c :: es2)) (flat_map ordering (es ++ es2) ++ ordering c).
+Proof.
+  rewrite !flat_map_app. simpl. rewrite <- app_assoc. apply Permutation_app_head. apply Permutation_app_comm.
+Qed.
+
+Lemma Forall_proper_app_inv es c es2 :
+  Forall (fun c => proper c = true) (es ++ c :: es2) ->
+  Forall (fun c => proper c = true) (es ++ es2) /\ proper c = true.
+Proof.
+  intros H. apply Forall_app in H. destruct H as [H1 H2]. inversion H2; subst. split; [apply Forall_app; auto|auto].
+Qed.
+
+(* the P-node case, given what the middle part mid (from the distinguished child c) satisfies *)
+Lemma SimpOK_P la v es c es2 mid :
+  2 <= length (es ++ c :: es2) -> Forall (fun c => proper c = true) (es ++ c :: es2) ->
+  Forall (PureE v) (es ++ es2) -> SimpOK la v c mid ->
+  SimpOK la v (Node KP (es ++ c :: es2))
+         (if negb la then new_node KP (es ++ es2) :: mid else mid ++ [new_node KP (es ++ es2)]).
+Proof.
+  intros Hlen Hp HE ((es' & fs' & HE' & HF' & Hmid) & Hpm & Hperm & Hpieces).
+  assert (Hne : es ++ es2 <> []).
+  { intros E. rewrite app_length in Hlen. simpl in Hlen. apply (f_equal (@length pq)) in E.
+    rewrite app_length in E. simpl in E. lia. }
+  destruct (Forall_proper_app_inv _ _ _ Hp) as [HpE Hpc].
+  assert (HXp : proper (new_node KP (es ++ es2)) = true) by now apply proper_new_node.
+  assert (HXE : PureE v (new_node KP (es ++ es2))) by now apply PureE_new_node.
+  destruct (Pieces_P es c es2 mid Hne Hpieces) as [HP1 HP2].
+  destruct la; simpl negb; cbv iota; subst mid.
+  - (* left aligned: fs' ++ es' ++ [X] *)
+    split; [|split; [|split]].
+    + exists (es' ++ [new_node KP (es ++ es2)]), fs'. repeat split; auto.
+      * apply Forall_app. split; auto.
+      * now rewrite app_assoc.
+    + apply Forall_app. split; auto.
+    + assert (E : flat_map ordering ((fs' ++ es') ++ [new_node KP (es ++ es2)]) =
+                  flat_map ordering (fs' ++ es') ++ flat_map ordering (es ++ es2))
+        by (rewrite flat_map_app; simpl; now rewrite app_nil_r, ordering_new_node).
+      rewrite E. change (ordering (Node KP (es ++ c :: es2))) with (flat_map ordering (es ++ c :: es2)).
+      etransitivity; [apply ordering_middle|]. etransitivity; [apply Permutation_app_comm|].
+      now apply Permutation_app_tail.
+    + exact HP2.
+  - split; [|split; [|split]].
+    + exists (new_node KP (es ++ es2) :: es'), fs'. repeat split; auto.
+    + constructor; auto.
+    + change (ordering (Node KP (es ++ c :: es2))) with (flat_map ordering (es ++ c :: es2)).
+      change (flat_map ordering (new_node KP (es ++ es2) :: es' ++ fs'))
+        with (ordering (new_node KP (es ++ es2)) ++ flat_map ordering (es' ++ fs')).
+      rewrite ordering_new_node. etransitivity; [apply ordering_middle|]. now apply Permutation_app_head.
+    + exact HP1.
+Qed.
+
+Lemma SimpOK_pure_F la v c : proper c = true -> PureF v c -> SimpOK la v c [c].
+Proof.
+  intros Hp HF. split; [|split; [|split]].
+  - exists [], [c]. repeat split; auto. destruct la; reflexivity.
+  - auto.
+  - simpl. now rewrite app_nil_r.
+  - apply Pieces_self.
+Qed.
+
+Lemma SimpOK_pure_E la v c : proper c = true -> PureE v c -> SimpOK la v c [c].
+Proof.
+  intros Hp HF. split; [|split; [|split]].
+  - exists [c], []. repeat split; auto. destruct la; reflexivity.
+  - auto.
+  - simpl. now rewrite app_nil_r.
+  - apply Pieces_self.
+Qed.
+
+Lemma Pieces_Q_fwd es x Lx : Pieces Lx x -> Pieces (es ++ Lx) (Node KQ (es ++ [x])).
+Proof.
+  intros [Hf Hb]. split; intros o Ho; apply Ord_Q.
+  - left. apply OrdL_app in Ho. destruct Ho as (o1 & o2 & -> & H1 & H2). apply OrdL_app. exists o1, o2.
+    repeat split; auto. apply OrdL_one. auto.
+  - right. rewrite rev_app_distr in *. simpl. apply OrdL_app in Ho. destruct Ho as (o1 & o2 & -> & H1 & H2).
+    apply OrdL_cons. exists o1, o2. repeat split; auto.
+Qed.
+
+Lemma Pieces_Q_bwd es x Lx : Pieces Lx x -> Pieces (Lx ++ es) (Node KQ (x :: es)).
+Proof.
+  intros [Hf Hb]. split; intros o Ho; apply Ord_Q.
+  - left. apply OrdL_app in Ho. destruct Ho as (o1 & o2 & -> & H1 & H2). apply OrdL_cons. exists o1, o2. auto.
+  - right. rewrite rev_app_distr in Ho. simpl. apply OrdL_app in Ho. destruct Ho as (o1 & o2 & -> & H1 & H2).
+    apply OrdL_app. exists o1, o2. repeat split; auto. apply OrdL_one. auto.
+Qed.
+
+(* the Q-node case with a distinguished last (first) child *)
+Lemma SimpOK_Q la v es x mid :
+  Forall (fun c => proper c = true) es -> Forall (PureE v) es -> SimpOK la v x mid ->
+  SimpOK la v (Node KQ (if la then x :: es else es ++ [x])) (if la then mid ++ es else es ++ mid).
+Proof.
+  intros Hp HE ((es' & fs' & HE' & HF' & Hmid) & Hpm & Hperm & Hpieces).
+  destruct la; subst mid.
+  - split; [|split; [|split]].
+    + exists (es' ++ es), fs'. repeat split; auto; [apply Forall_app; auto|now rewrite app_assoc].
+    + apply Forall_app. auto.
+    + change (ordering (Node KQ (x :: es))) with (ordering x ++ flat_map ordering es).
+      rewrite (flat_map_app ordering (fs' ++ es') es). now apply Permutation_app_tail.
+    + now apply Pieces_Q_bwd.
+  - split; [|split; [|split]].
+    + exists (es ++ es'), fs'. repeat split; auto; [apply Forall_app; auto|now rewrite app_assoc].
+    + apply Forall_app. auto.
+    + change (ordering (Node KQ (es ++ [x]))) with (flat_map ordering (es ++ [x])).
+      rewrite (flat_map_app ordering es [x]), (flat_map_app ordering es (es' ++ fs')).
+      apply Permutation_app_head. simpl. now rewrite app_nil_r.
+    + now apply Pieces_Q_fwd.
+Qed.
+
+Theorem simplify_spec la v t :
+  Al la v t -> proper t = true -> SimpOK la v t (simplify v (negb la) t).
+Proof.
+  induction 1 as [es c es2 HE HF|es c es2 HE HA IH|es fs HE HF|es x HE HA IH]; intros Hp.
+  - (* P, the other child is full *)
+    apply proper_node_iff in Hp. destruct Hp as [Hlen Hp]. destruct (Forall_proper_app_inv _ _ _ Hp) as [HpE Hpc].
+    assert (Hne : es ++ es2 <> []).
+    { intros E. rewrite app_length in Hlen. simpl in Hlen. apply (f_equal (@length pq)) in E.
+      rewrite app_length in E. simpl in E. lia. }
+    rewrite simplify_P_compute by assumption.
+    rewrite (PureF_contains v c Hpc HF), (PureF_not_partial v c Hpc HF). cbv zeta.
+    apply SimpOK_P; auto. now apply SimpOK_pure_F.
+  - apply proper_node_iff in Hp. destruct Hp as [Hlen Hp]. destruct (Forall_proper_app_inv _ _ _ Hp) as [HpE Hpc].
+    assert (Hne : es ++ es2 <> []).
+    { intros E. rewrite app_length in Hlen. simpl in Hlen. apply (f_equal (@length pq)) in E.
+      rewrite app_length in E. simpl in E. lia. }
+    rewrite simplify_P_compute by assumption.
+    destruct (contains v c) eqn:Ec.
+    + cbv zeta. apply SimpOK_P; auto.
+      destruct (is_partial_child v c) eqn:Epc; [now apply IH|].
+      apply SimpOK_pure_F; [exact Hpc|]. now apply (Al_honest la v c).
+    + (* nothing contains v: one block *)
+      apply contains_false_iff in Ec. rewrite new_node_many by exact Hlen.
+      apply SimpOK_pure_E; [now apply proper_node_iff|].
+      apply Pure_node_E. apply Forall_app in HE. destruct HE as [H1 H2]. apply Forall_app. split; auto.
+  - (* Q, all children pure *)
+    apply proper_node_iff in Hp. destruct Hp as [Hlen Hp]. rewrite simplify_Q_eq.
+    assert (Hall : Forall (fun c => is_partial_child v c = false) (if la then fs ++ es else es ++ fs)).
+    { assert (H1 : Forall (fun c => is_partial_child v c = false) es)
+        by (eapply Forall_impl; [|exact HE]; intros e; apply PureE_not_partial).
+      assert (H2 : Forall (fun c => is_partial_child v c = false) fs).
+      { apply Forall_forall. intros f Hf. apply PureF_not_partial.
+        - rewrite Forall_forall in Hp. apply Hp. destruct la; apply in_or_app; auto.
+        - rewrite Forall_forall in HF. now apply HF. }
+      destruct la; apply Forall_app; auto. }
+    rewrite flat_map_id_if by exact Hall. split; [|split; [|split]].
+    + exists es, fs. auto.
+    + exact Hp.
+    + reflexivity.
+    + split; intros o Ho; apply Ord_Q; auto.
+  - (* Q, one aligned child at the end *)
+    apply proper_node_iff in Hp. destruct Hp as [Hlen Hp]. rewrite simplify_Q_eq.
+    assert (HpE : Forall (fun c => proper c = true) es /\ proper x = true).
+    { destruct la; [inversion Hp; auto|apply Forall_app in Hp; destruct Hp as [H1 H2]; inversion H2; auto]. }
+    destruct HpE as [HpE Hpx].
+    assert (Hes : flat_map (fun c => if is_partial_child v c then simplify v (negb la) c else [c]) es = es).
+    { apply flat_map_id_if. eapply Forall_impl; [|exact HE]. intros e. apply PureE_not_partial. }
+    assert (Hmid : SimpOK la v x (if is_partial_child v x then simplify v (negb la) x else [x])).
+    { destruct (is_partial_child v x) eqn:Epx; [now apply IH|].
+      destruct (contains v x) eqn:Ec.
+      - apply SimpOK_pure_F; [exact Hpx|]. now apply (Al_honest la v x).
+      - apply SimpOK_pure_E; [exact Hpx|]. now apply contains_false_iff. }
+    destruct la; simpl negb in *.
+    + change (flat_map (fun c => if is_partial_child v c then simplify v false c else [c]) (x :: es))
+        with ((if is_partial_child v x then simplify v false x else [x]) ++
+              flat_map (fun c => if is_partial_child v c then simplify v false c else [c]) es).
+      rewrite Hes. now apply (SimpOK_Q true).
+    + rewrite flat_map_app, Hes. simpl flat_map. rewrite app_nil_r. now apply (SimpOK_Q false).
+Qed.
